@@ -335,6 +335,13 @@ def dynNew (c : Code) (p : DynParts) (ctx : Nat) : Option DM :=
   | none => none
   | some st => (c.newTyped st ctx).map fun tm => ⟨some (p.initialVariant, tm)⟩
 
+/-- the error arm of a `handle` arm: `from_guard_error`, with the state filled in when the
+    abort carried none -/
+def armError (errFrom : Name) (e : GuardError) : DynError :=
+  match DynError.fromGuardError e with
+  | .invalidTransition _ ev => .invalidTransition (.name errFrom) ev
+  | other => other
+
 /-- The body of `handle` after `self.inner.take()` returned `Some((tag, m))`: the first
     matching arm, else the catch-all. Result: what is written back to `self.inner` and what
     is returned. -/
@@ -347,7 +354,7 @@ def handleProg (c : Code) (p : DynParts) (tag : Name) (m : TM) (ev : EventVal) :
     | some meth =>
       (methodProg meth m (if a.passPayload then ev.payload else none)).mapRet fun
         | .ok nm => (⟨some (a.okVariant, nm)⟩, .ok)
-        | .err old e => (⟨some (a.errVariant, old)⟩, .err (DynError.fromGuardError e))
+        | .err old e => (⟨some (a.errVariant, old)⟩, .err (armError a.errFrom e))
   | none =>
     .ret (⟨some (tag, m)⟩,
           .err (.invalidTransition (.name (p.stateName tag)) (.name (p.eventName ev.variant))))
